@@ -215,6 +215,11 @@ func (g *Gen) clauseSource(cl *Clause, name string) string {
 }
 
 func (g *Gen) replay(o *Oblig, rf *replayFile) {
+	if o.ex == nil {
+		rf.Replay = "no-model"
+		rf.Reason = o.Res.Output
+		return
+	}
 	if o.Res.Status != "sat" || o.Res.Model == "" {
 		rf.Replay = "no-model"
 		rf.Reason = "the solver returned no model for this obligation (" + o.Res.Status + ")"
